@@ -66,11 +66,20 @@ Fixpoint list_eqb (a b : list Z) : bool :=
   | x :: a', y :: b' => (x =? y) && list_eqb a' b'
   | _, _ => false
   end.
+(* the same list computed from a table of (position, label) built once (cheap for sparse label
+   numbers); equal to neighbors_spec: Proofs/SpecC15.v, neighbors_spec_tab_eq *)
+Definition pixel_table (img : image) : list (px * Z) :=
+  map (fun p => (p, get2 img (fst p) (snd p))) (positions (img_h img) (img_w img)).
+Definition neighbors_spec_tab (tab : list (px * Z)) (img : image) (l : Z) : list Z :=
+  zunique (filter (fun m => negb (m =? 0) && negb (m =? l))
+            (flat_map (fun p => map (fun d => get2 img (fst p + fst d) (snd p + snd d)) dirs8)
+                      (map fst (filter (fun q => snd q =? l) tab)))).
 Definition neighbors_ok (img : image) (v_count v_index v_neighbor : list Z) : bool :=
   let mx := img_max img in
+  let tab := pixel_table img in
   (Z.of_nat (length v_count) =? mx) && list_eqb v_index (excl_cumsum 0 v_count) &&
   (Z.of_nat (length v_neighbor) =? fold_right Z.add 0 v_count) &&
-  forallb (fun r => list_eqb (slice (snd (fst r)) (fst (fst r)) v_neighbor) (neighbors_spec img (snd r)))
+  forallb (fun r => list_eqb (slice (snd (fst r)) (fst (fst r)) v_neighbor) (neighbors_spec_tab tab img (snd r)))
           (combine (combine v_count v_index) (zrange 1 (Z.to_nat mx))).
 
 (* ---------------------------------------------------------------- color_labels *)
